@@ -148,6 +148,30 @@ pub fn item_bytes(peer: &mut RawPeer, name: &str, t: u32, state: TargetState, rn
             raw_frame(T_DATA, F_PADDED, t, &[10, 1, 2, 3], &mut b);
             (Conn(1), false)
         }
+        "headers-padding-exceeds-length" => {
+            if state != Idle {
+                return None;
+            }
+            // pad length larger than what follows the pad-length octet
+            let blk = peer.encode_block(&[f(":method", "GET"), f(":scheme", "https"), f(":path", "/"), f(":authority", "vp.test")]);
+            let mut pl = vec![(blk.len() + 1 + rng.usize_below(20)).min(255) as u8];
+            pl.extend_from_slice(&blk);
+            raw_frame(T_HEADERS, F_PADDED | F_END_HEADERS | F_END_STREAM, t, &pl, &mut b);
+            (Conn(1), false)
+        }
+        "headers-padding-exceeds-length-after-priority" => {
+            if state != Idle {
+                return None;
+            }
+            // PADDED + PRIORITY: the pad length fits behind the pad-length octet but not behind the five
+            // priority octets that follow it (RFC 9113 6.2: padding >= remaining payload is PROTOCOL_ERROR)
+            let rest = rng.usize_below(4);
+            let pad = rest + 1 + rng.usize_below(5 - 0);
+            let mut pl = vec![pad as u8, 0, 0, 0, 0, 16];
+            pl.extend(std::iter::repeat(0x82).take(rest));
+            raw_frame(T_HEADERS, F_PADDED | F_PRIORITY | F_END_HEADERS | F_END_STREAM, t, &pl, &mut b);
+            (Conn(1), false)
+        }
         "headers-self-dependency" => {
             if state != Idle {
                 return None;
@@ -510,6 +534,8 @@ pub const ITEMS: &[&str] = &[
     "ping-on-stream",
     "goaway-on-stream",
     "data-padding-exceeds-length",
+    "headers-padding-exceeds-length",
+    "headers-padding-exceeds-length-after-priority",
     "headers-self-dependency",
     "priority-self-dependency",
     "continuation-without-headers",
@@ -1402,6 +1428,33 @@ pub struct HdrReport {
     pub inj_t: u64,
 }
 
+/// Encode a field list and choose how the block is cut into HEADERS/PUSH_PROMISE + CONTINUATION frames:
+/// whole, at a field boundary (a CONTINUATION then *begins* with some field of the list), at an arbitrary
+/// octet (possibly in the middle of a field), or into many small fragments. Returns (block, first_max, cont_max)
+/// for the serializer (`cont_max == 0` = one frame).
+fn cut_block(p: &mut RawPeer, fields: &[Field], rng: &mut Rng) -> (Vec<u8>, usize, usize) {
+    let mut block = Vec::new();
+    let mut bounds = Vec::new();
+    for fl in fields {
+        let part = p.encode_block(std::slice::from_ref(fl));
+        block.extend_from_slice(&part);
+        bounds.push(block.len());
+    }
+    let len = block.len();
+    if len < 2 || fields.len() < 2 {
+        return (block, 0, 0);
+    }
+    match rng.below(20) {
+        0..=7 => (block, 0, 0),
+        8..=12 => {
+            let k = rng.usize_below(fields.len() - 1);
+            (block, bounds[k], len)
+        }
+        13..=16 => (block, 1 + rng.usize_below(len - 1), len),
+        _ => (block, 1 + rng.usize_below(len.min(40)), 1 + rng.usize_below(50)),
+    }
+}
+
 async fn headers_peer_client(mut p: RawPeer, sc: HeadersScenario, rep: Rc<RefCell<HdrReport>>) {
     if !p.handshake(&[(S_INITIAL_WINDOW_SIZE, 1 << 20)]).await {
         return;
@@ -1410,10 +1463,11 @@ async fn headers_peer_client(mut p: RawPeer, sc: HeadersScenario, rep: Rc<RefCel
     let w = p.alloc_sid();
     p.open_request(w, "GET", "/witness", &[f("x-vp-id", "5")], true).await;
     let t = p.alloc_sid();
-    let block = p.encode_block(&sc.fields);
+    let mut crng = Rng::new(sc.seed ^ 0xc07);
+    let (block, fm, cm) = cut_block(&mut p, &sc.fields, &mut crng);
     let mut b = Vec::new();
-    headers(t, &block, sc.head_eos, None, None, 0, 0, &mut b);
-    let t_inj = sim::log(0, EvK::Note(format!("rawpeer: generated request on stream {} defect {:?}", t, sc.defect)));
+    headers(t, &block, sc.head_eos, None, None, fm, cm, &mut b);
+    let t_inj = sim::log(0, EvK::Note(format!("rawpeer: generated request on stream {} defect {:?} cut ({}, {}) of {}", t, sc.defect, fm, cm, block.len())));
     {
         let mut r = rep.borrow_mut();
         r.sent = true;
@@ -1459,10 +1513,11 @@ async fn headers_peer_server(mut p: RawPeer, sc: HeadersScenario, rep: Rc<RefCel
         r.inj_t = t_inj;
     }
     let mut b = Vec::new();
+    let mut crng = Rng::new(sc.seed ^ 0xc07);
     match sc.kind {
         MsgKind::Response => {
-            let block = p.encode_block(&sc.fields);
-            headers(t, &block, sc.head_eos, None, None, 0, 0, &mut b);
+            let (block, fm, cm) = cut_block(&mut p, &sc.fields, &mut crng);
+            headers(t, &block, sc.head_eos, None, None, fm, cm, &mut b);
             p.send(&b).await;
             let n = sc.body.len();
             let mut off = 0u64;
@@ -1475,8 +1530,8 @@ async fn headers_peer_server(mut p: RawPeer, sc: HeadersScenario, rep: Rc<RefCel
             }
         }
         MsgKind::Interim => {
-            let block = p.encode_block(&sc.fields);
-            headers(t, &block, false, None, None, 0, 0, &mut b);
+            let (block, fm, cm) = cut_block(&mut p, &sc.fields, &mut crng);
+            headers(t, &block, false, None, None, fm, cm, &mut b);
             p.send(&b).await;
             p.serve_for(5).await;
             p.respond(t, 200, &[], true).await;
@@ -1484,14 +1539,14 @@ async fn headers_peer_server(mut p: RawPeer, sc: HeadersScenario, rep: Rc<RefCel
         MsgKind::Trailers => {
             p.respond(t, 200, &[], false).await;
             p.send_data_legal(t, 5, 0, 10, false).await;
-            let block = p.encode_block(&sc.fields);
+            let (block, fm, cm) = cut_block(&mut p, &sc.fields, &mut crng);
             let mut b = Vec::new();
-            headers(t, &block, true, None, None, 0, 0, &mut b);
+            headers(t, &block, true, None, None, fm, cm, &mut b);
             p.send(&b).await;
         }
         MsgKind::PushedRequest => {
-            let block = p.encode_block(&sc.fields);
-            push_promise(t, 2, &block, None, 0, 0, &mut b);
+            let (block, fm, cm) = cut_block(&mut p, &sc.fields, &mut crng);
+            push_promise(t, 2, &block, None, fm, cm, &mut b);
             p.send(&b).await;
             p.settle_world(100_000).await;
             p.respond(2, 200, &[], true).await;
@@ -1765,6 +1820,17 @@ fn grammar_frames(rng: &mut Rng, enc: &mut crate::wire::hpack_ref::RefEncoder, n
                 let pad = if rng.chance(1, 5) { Some(rng.byte()) } else { None };
                 let (fm, cm) = if rng.chance(1, 3) { (rng.usize_below(20), 1 + rng.usize_below(50)) } else { (0, 0) };
                 headers(sid, &blk, rng.chance(1, 2), pad, prio, fm, cm, out);
+            }
+            3 if rng.chance(1, 2) => {
+                // tiny payloads under flags that announce more structure than there is (pad length, priority
+                // fields, promised id): every length subtraction in the frame loaders is reached
+                let typ = *rng.pick(&[T_DATA, T_HEADERS, T_HEADERS, T_PUSH_PROMISE]);
+                let flags = (if rng.chance(3, 4) { F_PADDED } else { 0 }) | (if rng.chance(1, 2) { F_PRIORITY } else { 0 }) | (if rng.chance(1, 2) { F_END_HEADERS } else { 0 }) | (if rng.chance(1, 3) { F_END_STREAM } else { 0 });
+                let mut pl = rng.bytes_upto(13);
+                if !pl.is_empty() && rng.chance(2, 3) {
+                    pl[0] = rng.below(pl.len() as u64 + 2) as u8;
+                }
+                raw_frame(typ, flags, sid, &pl, out);
             }
             3 => priority(sid, rng.chance(1, 2), *rng.pick(&sids), rng.byte(), out),
             4 => rst(sid, *rng.pick(&[0u32, 1, 2, 7, 8, 0xffff_ffff]), out),
